@@ -215,8 +215,7 @@ def correspondence(ctx, cases, limit=None):
         if limit and len(terms) >= limit:
             break
     name = "lazy-model-vs-class-dicts"
-    bad, log = vlib.coq_bad_idx("c14_corr", "LazyModel LazyCheck", "", "Close Scope Z_scope.\n", terms, "case_ok", "case", shard=60,
-                                needs=["theories/LazyCheck.vo"])
+    bad, out_dom, log = corr_eval(terms)
     if bad is None:
         ctx.correspondence(name, len(terms), -1, log)
         ctx.not_shown("correspondence " + name, log)
@@ -225,16 +224,43 @@ def correspondence(ctx, cases, limit=None):
     if bad:
         c = srcs[bad[0]]
         ok, out = vlib.coq_eval("c14_corr_dbg", vlib.CASE_HEADER.format(imports="LazyModel LazyCheck", gen_imports="") + "Close Scope Z_scope.\n" +
-                                f"Definition k := {terms[bad[0]]}.\nEval vm_compute in (check_case k).\nEval vm_compute in (trace_case k).\n")
+                                f"Definition k := {terms[bad[0]]}.\nEval vm_compute in (check_case k).\nEval vm_compute in (trace_case k).\n",
+                                timeout=1800)
         detail = (f"{len(bad)} histories disagree; first: mode {c['mode']} order {c['order']} lazy {c['lazy']} ops {c['ops'][:3]} "
                   f"observed {c['snaps'][:2]} ;; coq: {out[-1800:]}")
         ctx.not_shown("correspondence " + name, detail)
     ctx.correspondence(name, len(terms), len(bad), detail or f"{nsteps} compared states")
     ctx.hist("correspondence", "histories", len(terms))
     # how many of the compared families lie in the domain of the theorems (selfref_unspec), decided in Coq
-    out_dom, _ = vlib.coq_bad_idx("c14_dom", "LazyModel LazyCheck", "", "Close Scope Z_scope.\n", terms,
-                                  "fun k => selfref_unspecb (k_fam k)", "case", shard=60, needs=["theories/LazyCheck.vo"])
-    if out_dom is not None:
-        ctx.hist("correspondence", "families outside selfref_unspec", len(out_dom))
+    ctx.hist("correspondence", "families outside selfref_unspec", len(out_dom))
     ctx.hist("correspondence", "states", nsteps)
     return not bad
+
+
+def corr_eval(terms, shard=60):
+    """one coqc run per shard evaluates both `bad_idx case_ok cases` and the domain predicate; generous time limit
+    (a loaded machine must not turn into an alarm). Returns (bad, outside_domain, log) or (None, None, log)."""
+    br = vlib.coq_make(["theories/Wire.vo", "theories/PyK.vo", "theories/LazyCheck.vo"], timeout=2400)
+    if not br.ok:
+        return None, None, "model does not build: " + (br.error or "")
+    files = []
+    for si in range(0, max(len(terms), 1), shard):
+        chunk = terms[si:si + shard]
+        txt = vlib.CASE_HEADER.format(imports="LazyModel LazyCheck", gen_imports="") + "Close Scope Z_scope.\n"
+        txt += "Definition cases : list case :=\n  [" + ";\n   ".join(chunk) + "].\n"
+        txt += "Eval vm_compute in (bad_idx case_ok cases).\n"
+        txt += "Eval vm_compute in (bad_idx (fun k => selfref_unspecb (k_fam k)) cases).\n"
+        files.append((f"c14_corr_{si // shard}", txt))
+    res = vlib.coq_eval_many(files, timeout=1800, jobs=6)
+    bad, dom, logs = [], [], []
+    for n, (ok, out) in enumerate(res):
+        if not ok:
+            return None, None, out[-3000:]
+        parts = re.findall(r"=\s*(\[[^\]]*\])\s*(?:%nat)?\s*:\s*list nat", out, re.S)
+        if len(parts) != 2:
+            return None, None, "unparsable coq output: " + out[-1500:]
+        for tgt, body in zip((bad, dom), parts):
+            body = body.strip()[1:-1].strip()
+            tgt.extend(n * shard + int(x.replace("%nat", "").strip()) for x in body.split(";") if x.strip())
+        logs.append(out[-200:])
+    return bad, dom, "\n".join(logs)
